@@ -827,9 +827,23 @@ def substitution_of(case, model):
     return {nm: resolve(e) for nm, e in sigma.items()}, [nm for nm in gone if nm not in sigma]
 
 
+def is_duration_rejection(e):
+    """Is this exception the delay-duration rejection?  Decided structurally — a ValueError raised while
+    `Model._post_checks` is on the stack — never by the wording of the message (which may name the offending delay
+    and symbols); fallback for a restructured check: a ValueError whose message speaks of a delay / duration."""
+    import re
+    import traceback
+    if not isinstance(e, ValueError):
+        return False
+    names = [fr.name for fr in traceback.extract_tb(e.__traceback__)]
+    if "_post_checks" in names:
+        return True
+    return re.search(r"delay|duration", str(e), re.I) is not None
+
+
 def one_call(folder, case, store):
     from pymoca.backends.casadi.api import transfer_model
-    model, raised, msg = None, None, ""
+    model, verdict, msg = None, "accept", ""
     try:
         if store is not None:
             with H.capture_flat(store):
@@ -837,9 +851,8 @@ def one_call(folder, case, store):
         else:
             model = transfer_model(folder, case["name"], dict(case.get("options") or {}))
     except Exception as e:
-        raised, msg = type(e).__name__, str(e)
-    verdict = "accept" if raised is None else ("reject" if raised == "ValueError" and "Delay durations" in msg
-                                               else "raise:" + raised)
+        msg = str(e)
+        verdict = "reject" if is_duration_rejection(e) else "raise:" + type(e).__name__
     return model, verdict, msg
 
 
